@@ -460,7 +460,16 @@ pub fn main(o: &Opts) -> Result<i32, String> {
         // every name is reachable; thorough runs walk the whole table
         let row = if o.flag("all-names") { &names[(i as usize) % names.len()] } else { &names[r.below(names.len() as u64) as usize] };
         let mut lines = vec![];
-        run_session(row, &profile, seed, i, &mut lines)?;
+        // a panic in the code under test is data: the trace ends with an event no action of the trace
+        // specification explains, so validation rejects it there
+        let res = std::panic::catch_unwind(std::panic::AssertUnwindSafe(|| run_session(row, &profile, seed, i, &mut lines)));
+        match res {
+            Ok(r) => r?,
+            Err(p) => {
+                let msg = p.downcast_ref::<&str>().map(|s| s.to_string()).or_else(|| p.downcast_ref::<String>().cloned()).unwrap_or_default();
+                lines.push(json!({"ev": "panic", "what": msg}).to_string());
+            },
+        }
         for l in &lines {
             writeln!(f, "{l}").map_err(|e| e.to_string())?;
         }
